@@ -7,6 +7,7 @@
 package pfcpiface
 
 import (
+	"strings"
 	"encoding/json"
 	"fmt"
 	"sort"
@@ -205,6 +206,23 @@ func c15Est(n int, nq int, gnb string, sdf string) func(s *sessSys) *sessReq {
 	}
 }
 
+// c15EstOneFiltered: like c15Est with a filter, but only the uplink rule carries it - the application filter then has
+// exactly one user.
+func c15EstOneFiltered(n int, nq int, gnb string, sdf string) func(s *sessSys) *sessReq {
+	return func(s *sessSys) *sessReq {
+		ue := fmt.Sprintf("16.0.0.%d", n)
+		p, f, q := up4RuleSet(ue, uint32(0x100+n), gnb, sdf, nq, 0)
+		var keep []sPDR
+		for _, x := range p {
+			if x.SDF != "" && x.Src == ie.SrcInterfaceCore {
+				continue
+			}
+			keep = append(keep, x)
+		}
+		return &sessReq{sReq: sReq{Kind: kEst, Conn: 0, CPSEID: uint64(n), CreatePDR: keep, CreateFAR: f, CreateQER: q}, Label: fmt.Sprintf("est%d", n)}
+	}
+}
+
 // sessByCP finds the model session created with CP SEID n (nil if it was never accepted or is dead)
 func sessByCP(s *sessSys, n uint64) *rSess {
 	for _, x := range s.m.live(-1) {
@@ -240,6 +258,8 @@ var c15Contexts = map[string][]c15Op{
 	"two-2qer": {{"est1", c15Est(1, 2, c04Peers[0], "")}, {"est2", c15Est(2, 2, c04Peers[0], c04SDFs[0])}},
 	// one session with two QERs: two session meter cells stay free
 	"one-2qer": {{"est1", c15Est(1, 2, c04Peers[0], c04SDFs[0])}},
+	// one session whose application filter is used by a single rule
+	"one-filter-one-user": {{"est1", c15EstOneFiltered(1, 1, c04Peers[0], c04SDFs[0])}},
 }
 
 var c15Faulted = map[string]c15Op{
@@ -282,7 +302,7 @@ func c15Run(res *vResult, cs c15Case) (nop, nafter int) {
 			// was a write of this request failed?
 			failedHere := false
 			for _, w := range fp.log {
-				if w.Idx >= ctx.cmd0 && w.Err != "" && (w.Err == "injected transport error" || w.Err == "injected p4 error" || w.Err == "applied, response lost") {
+				if w.Idx >= ctx.cmd0 && w.Err != "" && (w.Err == "injected transport error" || w.Err == "injected p4 error" || w.Err == "applied, response lost" || w.Err == "injected UNKNOWN without details") {
 					failedHere = true
 				}
 			}
@@ -292,7 +312,9 @@ func c15Run(res *vResult, cs c15Case) (nop, nafter int) {
 		}
 		res.outcome(fmt.Sprintf("%s-accepted=%v", r.Kind, ctx.accepted))
 		for _, v := range c15Invariants(s) {
-			res.finding("c15:"+v.class, fmt.Sprintf("%s (context %s, faulted op %s, write %d fails as %s; after %s)", v.desc, cs.Ctx, cs.Op, cs.K, cs.Shape, op.name), cs)
+			// the signature names the kind of the faulted operation: the same class of damage done by another kind of request
+			// is another finding
+			res.finding("c15:"+v.class+":"+strings.SplitN(cs.Op, "-", 2)[0], fmt.Sprintf("%s (context %s, faulted op %s, write %d fails as %s; after %s)", v.desc, cs.Ctx, cs.Op, cs.K, cs.Shape, op.name), cs)
 			return false
 		}
 		res.States++
